@@ -15,10 +15,11 @@ let repr_str r = match r with
 
 let key_int e = int_of_z e.ekey
 
-let dump (m : mm) : string =
+let dump (c : VersionModel.vmm) : string =
+  let m = fst c in
   let (es, n) = m in
   let b = Buffer.create 256 in
-  Buffer.add_string b (Printf.sprintf "n=%s kc=%s " (zs (get_count m)) (zs (get_key_count m)));
+  Buffer.add_string b (Printf.sprintf "n=%s kc=%s v=%s " (zs (get_count m)) (zs (get_key_count m)) (zs (VersionModel.vver c)));
   let sorted = Stdlib.List.sort (fun e1 e2 -> compare (key_int e1) (key_int e2)) es in
   Stdlib.List.iter (fun e ->
     Buffer.add_string b (Printf.sprintf "{%s:%s:%s:%s}" (zs e.ekey) (zs e.etag) (repr_str (fst e.earr))
@@ -31,17 +32,17 @@ let dump (m : mm) : string =
   Buffer.contents b
 
 let run_mm (mfast : coq_Z) (ops : string list) : string =
-  let s = ref st_empty in
+  let s = ref VersionModel.vst_empty in
   let recs = ref [] in
   Stdlib.List.iter (fun tok ->
     let w = split_on ',' tok in
     let c = (Stdlib.List.hd w).[0] in
     let inject = String.length (Stdlib.List.hd w) > 1 && (Stdlib.List.hd w).[1] = '!' in
     let a = Array.of_list (Stdlib.List.map z_of_string (Stdlib.List.tl w)) in
-    let cur = fst !s in
+    let cur = fst (fst !s) in
     let es = fst cur in
     let both = ref false in
-    let apply o = s := step mfast !s o in
+    let apply o = s := VersionModel.vstep mfast !s (VersionModel.VOp o) in
     let ret =
       match c with
       | 'a' -> apply (OAdd (a.(0), a.(1), a.(2))); Printf.sprintf "it(%s,%s)" (zs a.(0)) (zs a.(2))
@@ -51,18 +52,19 @@ let run_mm (mfast : coq_Z) (ops : string list) : string =
       | 'n' -> (match find a.(0) es with
                 | Some _ -> "skip"
                 | None -> apply (OAddKey (a.(0), a.(1)));
-                    (match find a.(0) (fst (fst !s)) with
+                    (match find a.(0) (fst (fst (fst !s))) with
                      | Some e -> Printf.sprintf "key(%s,%s,%d)" (zs e.ekey) (zs e.etag) (Stdlib.List.length (evals e))
                      | None -> "key(?)"))
       | 'L' -> let rec trip i = if i + 2 < Array.length a && i < 9 then ((a.(i), a.(i+1)), a.(i+2)) :: trip (i + 3) else [] in
-               apply OClear; apply (OAddRange (trip 0)); "ok"       (* construct from an initializer list, move-assign *)
+               (* a NEW container (new crew, version 0) filled by Add(range), then move-assigned to cur *)
+               s := (VersionModel.vstep1 mfast VersionModel.vmm_fresh (OAddRange (trip 0)), snd !s); "ok"       (* construct from an initializer list, move-assign *)
       | 'M' -> (match find a.(0) es with
                 | Some e when int_of_z a.(1) <= Stdlib.List.length (evals e) -> "mi"
                 | _ -> "skip")
       | 'G' -> let rec trip i = if i + 2 < Array.length a then ((a.(i), a.(i+1)), a.(i+2)) :: trip (i + 3) else [] in
                apply (OAddRange (trip 0)); "ok"
       | 'i' -> apply (OInsertKey (a.(0), a.(1)));
-               (match find a.(0) (fst (fst !s)) with
+               (match find a.(0) (fst (fst (fst !s))) with
                 | Some e -> Printf.sprintf "key(%s,%s,%d)" (zs e.ekey) (zs e.etag) (Stdlib.List.length (evals e))
                 | None -> "key(?)")
       | 'r' | 'R' ->
@@ -73,19 +75,19 @@ let run_mm (mfast : coq_Z) (ops : string list) : string =
                     (* r! : the allocation of a Shrink inside RemoveBack fails (swallowed): failure schedule [true] *)
                     (if inject then
                        (match step1f mfast cur (ORemove (a.(0), nat_of_int i)) [true] with
-                        | ((m', _), _) -> s := (m', snd !s))
+                        | ((m', _), _) -> s := ((m', (BinInt.Z.add (VersionModel.vver (fst !s)) (z_of_int 1), true)), snd !s))
                      else apply (ORemove (a.(0), nat_of_int i)));
-                    match find a.(0) (fst (fst !s)) with
+                    match find a.(0) (fst (fst (fst !s))) with
                     | Some e' -> let vs = evals e' in
                         if i < Stdlib.List.length vs then Printf.sprintf "it(%s,%s)" (zs a.(0)) (zs (Stdlib.List.nth vs i)) else "nx"
                     | None -> "lost" end)
       | 'p' -> let before = get_count cur in
                apply (ORemoveIf (lin_pred a.(0) a.(1) a.(2) a.(3)));
-               Printf.sprintf "rm%s" (zs (BinInt.Z.sub before (get_count (fst !s))))
+               Printf.sprintf "rm%s" (zs (BinInt.Z.sub before (get_count (fst (fst !s)))))
       | 'v' -> (match find a.(0) es with None -> "skip" | Some _ -> apply (ORemoveValues a.(0)); "ok")
       | 'k' -> let before = get_count cur in
                apply (ORemoveKey a.(0));
-               Printf.sprintf "rk%s" (zs (BinInt.Z.sub before (get_count (fst !s))))
+               Printf.sprintf "rk%s" (zs (BinInt.Z.sub before (get_count (fst (fst !s)))))
       | 'K' -> (match find a.(0) es with
                 | None -> "skip"
                 | Some e -> apply (ORemoveKey a.(0)); Printf.sprintf "rk%d" (Stdlib.List.length (evals e)))
@@ -94,7 +96,14 @@ let run_mm (mfast : coq_Z) (ops : string list) : string =
       | 's' -> apply OSwap; both := true; "ok"
       | 'y' -> apply OCopyTo; both := true; "ok"
       | 'Y' -> apply OCopyFrom; both := true; "ok"
-      | 'm' -> apply OMoveFrom; both := true; "ok"
+      | 'm' -> apply OMoveFrom; both := true;
+               (* oth is now moved-from: variant 2 clears it (a no-op on a dead container); then it is re-created *)
+               let var = if Array.length a = 0 then 0 else (int_of_z a.(0)) mod 4 in
+               if var = 2 then s := VersionModel.vstep mfast !s VersionModel.VClearOther;
+               let dead = snd !s in
+               let r = Printf.sprintf "ok:dead(%s,%s,%s)" (zs (get_count (fst dead))) (zs (get_key_count (fst dead)))
+                         (string_of_int (Stdlib.List.length (traverse (fst dead)))) in
+               s := VersionModel.vstep mfast !s VersionModel.VReviveOther; r
       | _ -> "?" in
     let r = ret ^ ";" ^ dump (fst !s) ^ (if !both then ";" ^ dump (snd !s) else "") in
     recs := r :: !recs) ops;
@@ -169,23 +178,6 @@ let run_um (mfast : coq_Z) (kprobe : int) (ops : string list) : string =
     recs := Buffer.contents b :: !recs) ops;
   String.concat "|" (Stdlib.List.rev !recs)
 
-(* ------------------------------------------------------------------ generated kernels (translator validation) *)
-let out_z = function GenPrelude.Ok v -> zs v | GenPrelude.Stuck -> "Stuck" | GenPrelude.Fuel -> "Fuel" | GenPrelude.Exn -> "Exn"
-let run_gen (w : string list) : string =
-  match w with
-  | ["gc"; cap; mn] -> out_z (Gen_GrowCapacity.coq_GrowCapacity true (z_of_string cap) (z_of_string mn) (z_of_int 0) false)
-  | ["ms"; p; c] -> zs (Gen_ArrayBucket.pvMakeState (z_of_string p) (z_of_string c)) ^ " " ^ zs (Gen_ArrayBucket_s.pvMakeState (z_of_string p) (z_of_string c))
-  | ["gp"; st] ->
-      let load = fun _ -> z_of_string st in
-      let ptr = z_of_int 4096 in
-      let idx = Gen_ArrayBucket.pvGetMemPoolIndex load ptr in
-      let poolf = fun q -> match Gen_ArrayBucket.pvGetMemPoolIndex load q with GenPrelude.Ok v -> v | _ -> z_of_int 0 in
-      out_z idx ^ " " ^ out_z (Gen_ArrayBucket_cnt.pvGetFastCount load poolf ptr)
-  | ["fi"; which; n] ->
-      if which = "7" then out_z (Gen_ArrayBucket.pvGetFastMemPoolIndex (z_of_int 7) (z_of_string n))
-      else out_z (Gen_ArrayBucket_s.pvGetFastMemPoolIndex (z_of_int 2) (z_of_string n))
-  | _ -> "?"
-
 let run_ab2 (mfast : coq_Z) (ops : string list) : string =
   let s = ref (ab_null, ab_null) in
   let d1 (a : ab) = repr_str (fst a) ^ ":" ^ String.concat "," (Stdlib.List.map zs (snd a)) in
@@ -212,7 +204,6 @@ let run_ab2 (mfast : coq_Z) (ops : string list) : string =
 let () = iter_lines (fun line ->
   match words line with
   | "ab2" :: m :: ops -> print_endline (run_ab2 (z_of_string m) ops)
-  | ("gc" | "ms" | "gp" | "fi") :: _ as w -> print_endline (run_gen w)
   | "mm" :: _bucket :: m :: _vt :: _hm :: ops -> print_endline (run_mm (z_of_string m) ops)
   | "um" :: _bucket :: m :: _hm :: k :: ops -> print_endline (run_um (z_of_string m) (int_of_string k) ops)
   | _ -> print_endline "?")
